@@ -7,6 +7,7 @@ import (
 	"fmt"
 	"hash/fnv"
 	"os"
+	"runtime/debug"
 	"sort"
 	"strconv"
 	"strings"
@@ -311,6 +312,7 @@ func (e *Exec) Do(o Op) (res string) {
 				done <- "panic:" + strings.ReplaceAll(fmt.Sprint(r), " ", "_")
 			}
 		}()
+		debug.SetPanicOnFault(true) // reading a page beyond the mapping becomes a panic, not a SIGBUS
 		done <- e.do(o)
 	}()
 	select {
